@@ -160,6 +160,8 @@ class FakeStream(trio.abc.HalfCloseableStream):
                     break
                 await self._send_lot.park()
             data = bytes(data)
+            if self.world.finished:
+                return
             self.rec.out.extend(data)
             self.rec.out_chunks.append((self.world.now(), data))
             cl = self.rec.client
@@ -180,7 +182,8 @@ class FakeStream(trio.abc.HalfCloseableStream):
         if self.closed:
             raise trio.ClosedResourceError("this socket was already closed")
         self.sent_eof = True
-        self.rec.server_eof_at = self.world.now()
+        if not self.world.finished:
+            self.rec.server_eof_at = self.world.now()
 
     async def receive_some(self, max_bytes: Optional[int] = None) -> bytes:
         if self._receiving:
@@ -214,7 +217,7 @@ class FakeStream(trio.abc.HalfCloseableStream):
         if not self.closed:
             self.closed = True
             self.socket.close()
-            if self.rec.closed_at is None:
+            if self.rec.closed_at is None and not self.world.finished:
                 self.rec.closed_at = self.world.now()
             self._recv_lot.unpark_all()
             self._send_lot.unpark_all()
@@ -416,14 +419,18 @@ class TrioWorld(WorldBase):
                 sockets=Sockets([], [self.listen_sock], []),
                 shutdown_trigger=self.shutdown_event.wait,
             )
-            self.serve_result = "ok"
+            if not self.finished:
+                self.serve_result = "ok"
         except trio.Cancelled:
-            self.serve_result = "cancelled"
+            if not self.finished:
+                self.serve_result = "cancelled"
             raise
         except BaseException as e:
-            self.serve_result = f"exc:{type(e).__name__}:{e}"
+            if not self.finished:
+                self.serve_result = f"exc:{type(e).__name__}:{e}"
         finally:
-            self.serve_done_at = self.now()
+            if not self.finished:
+                self.serve_done_at = self.now()
             trio.SocketListener = orig_listener  # type: ignore
             trio.socket.from_stdlib_socket = orig_from  # type: ignore
             from random import randint
@@ -482,17 +489,20 @@ class TrioWorld(WorldBase):
         try:
             await tcp.run()
         except trio.Cancelled:
-            rec.handler = "cancelled"
-            rec.handler_done_at = self.now()
+            if not self.finished:
+                rec.handler = "cancelled"
+                rec.handler_done_at = self.now()
             raise
         except BaseException as e:
             from .aio import _exc_repr
 
-            rec.handler = f"exc:{_exc_repr(e)}"
-            rec.handler_done_at = self.now()
+            if not self.finished:
+                rec.handler = f"exc:{_exc_repr(e)}"
+                rec.handler_done_at = self.now()
         else:
-            rec.handler = "ok"
-            rec.handler_done_at = self.now()
+            if not self.finished:
+                rec.handler = "ok"
+                rec.handler_done_at = self.now()
 
     # ---- environment events
     def _deadline(self) -> float:
@@ -526,6 +536,8 @@ class TrioWorld(WorldBase):
             return ev[1] not in self.conns
         if kind == "shutdown":
             return self.shutdown_event is not None and not self.shutdown_event.is_set()
+        if kind == "terminate":  # conn-level stand-in for "shutdown has begun"
+            return self.context is not None and not self.context.terminated.is_set()
         if kind == "wait_closed":
             rec = self.conns.get(ev[1])
             return rec is not None and rec.closed_at is not None
@@ -570,6 +582,9 @@ class TrioWorld(WorldBase):
         elif kind == "shutdown":
             self.shutdown_at = self.now()
             self.shutdown_event.set()
+        elif kind == "terminate":
+            self.shutdown_at = self.now()
+            self.context.terminated._event.set()
         elif kind in ("wait_closed", "wait_idle"):
             pass
         elif kind == "call":
@@ -636,6 +651,7 @@ class TrioWorld(WorldBase):
                 self.teardown_exc = e
 
     def finish(self) -> None:
+        self.finished = True
         self.sigs.add(self.signature())
         self.drain_instances()
         self.final_time = self.now()
